@@ -471,6 +471,33 @@ pub fn build_session(r: &mut Rng, seed: u64, run: u64, plan: &SessionPlan) -> Op
             a.stdin.bytes = Bytes(concat(&lines, |l| l.who == Who::Service));
             case.alts.push(AltRun { role: "plain_ref".to_owned(), scn: a, gen: Some(rinfo) });
         }
+        if plan.alt_plain_ref && case.gen.as_ref().map(|g| g.tags.iter().any(|t| t == "tf_set_by_popf")).unwrap_or(false) {
+            // the same program stepped the other way: reference variant (TF never set) under -i,
+            // every prompt answered with next, the services fed the same lines. Both ways of
+            // stepping must execute the same instructions (a REP iteration counts as one).
+            let rtext = prog.render_ref();
+            let rinfo = prog.info_ref();
+            let mut b = Scenario::new(rtext.as_bytes());
+            b.interpreted = true;
+            b.fuel = case.scn.fuel;
+            b.hash_seed = case.scn.hash_seed;
+            let mut svc: std::collections::VecDeque<Vec<u8>> =
+                lines.iter().filter(|l| l.who == Who::Service).map(|l| l.bytes.clone()).collect();
+            let mut served = 0usize;
+            let adaptive: world::Adaptive = Box::new(move |who, _regs, _mem| {
+                served += 1;
+                if served > 4000 {
+                    return None;
+                }
+                match who {
+                    Who::Prompt => Some(b"n\n".to_vec()),
+                    Who::Service => svc.pop_front(),
+                }
+            });
+            let (_, script) = world::run_here(&b, Some(adaptive));
+            b.stdin.bytes = Bytes(script);
+            case.alts.push(AltRun { role: "interpreted_ref".to_owned(), scn: b, gen: Some(rinfo) });
+        }
         if plan.alt_no_prints && lines.iter().any(|l| l.kind == AnsKind::Print) {
             let mut a = case.scn.clone();
             a.stdin.bytes = Bytes(concat(&lines, |l| l.kind != AnsKind::Print));
@@ -502,6 +529,8 @@ pub fn rebuild_from_program(case: &mut Case) -> bool {
     }
     case.scn.source = Bytes(text.clone().into_bytes());
     case.gen = Some(info);
+    // the -i reference run needs a script of its own: not rebuilt by the minimiser, dropped instead
+    case.alts.retain(|a| a.role != "interpreted_ref");
     for a in case.alts.iter_mut() {
         if a.role == "plain_ref" {
             let rtext = p.render(true);
